@@ -195,6 +195,15 @@ def build_problem(case):
            "opts": {"range": bool(ob.get("range")), "minimal": bool(ob.get("minimal")), "tol": ob.get("tol"),
                     "mineral_water": False if ob.get("mw") is False else None, "mp": bool(ob.get("mp"))}}
     problem = {"solutions": sols, "inverse": inv}
+    jit = case.get("jit", 0)
+    if jit:
+        # deterministic jitter of every analysis by at most 0.3 x its declared uncertainty (the truth stays admissible)
+        for i, q in enumerate(sols):
+            for k, el in enumerate(sorted(q["totals"])):
+                sfac = ((i * 7 + k * 3 + jit * 5) % 11 - 5) / 5.0
+                u = im.declared_unc(inv, el, q["n"])
+                c = q["totals"][el]
+                q["totals"][el] = c * (1.0 + 0.3 * u * sfac) if u > 0 else max(c + 0.3 * (-u) * sfac, 0.0)
     pert = case.get("pert")
     if pert:
         el, k, which = pert
